@@ -187,7 +187,8 @@ def gen_continuity(seed: int, n: int) -> list[dict[str, Any]]:
 
 def gen_coverage(seed: int, n: int) -> list[dict[str, Any]]:
     rnd = random.Random(f'cov-{seed}')
-    out = []
+    # the history in which F25 was found: a kind removed and re-added within a few loop cycles
+    out = [{'id': 'cov-crafted-f25', 'init_ns': ['ns2', 'other'], 'env': [(8, 'crdadd'), (16, 'check'), (20, 'burst', ('crddel',), 2, ('crdadd',)), (30, 'check')], 'end': 50}]
     for i in range(n):
         env = []; t = 2
         for _ in range(rnd.randint(2, 8)):
